@@ -9,6 +9,7 @@
     value universe x encodings; every result must pass the implementation's own validity check.
 """
 import itertools
+import re
 import os
 import sys
 
@@ -256,6 +257,19 @@ def has_record(d, zero_fields=False):
     return any(has_record(x, zero_fields) for x in d.get("contents", []))
 
 
+def has_option(d):
+    if d is None:
+        return False
+    c = d["class"]
+    if c.startswith("IndexedOption") or c in ("ByteMaskedArray", "BitMaskedArray", "UnmaskedArray"):
+        return True
+    if isinstance(d.get("content"), dict) and has_option(d["content"]):
+        return True
+    if isinstance(d.get("array"), dict) and has_option(d["array"]):
+        return True
+    return any(has_option(x) for x in d.get("contents", []))
+
+
 def top_family(d):
     c = d["class"]
     for fam in ("IndexedOption", "Indexed", "ByteMasked", "BitMasked", "Unmasked", "Union", "ListOffset", "List",
@@ -276,6 +290,9 @@ def msgclass(ve):
         return "indexed-or-option-contains-indexed-or-option"
     if "negative length" in ve:
         return "negative-length"
+    m = re.search(r"\((\w+)\): (.*?)( at i=\d+)?\s*(\(https|$)", ve, re.S)
+    if m:
+        return "structure: %s: %s" % (m.group(1), m.group(2).strip())
     return "structure: " + ve.split("(https")[0][-60:]
 
 
@@ -376,7 +393,7 @@ class C11(runner.Check):
                                          {"part": "b", "layout": layouts.to_json(d), "op": opname, "args": list(args)},
                                          op=opname, msgclass=msgclass(ve), input_top=top_family(d),
                                          has_string=has_string(d), has_record=has_record(d),
-                                         has_empty_record=has_record(d, True))
+                                         has_empty_record=has_record(d, True), has_option=has_option(d))
                         elif depth2 and nstates <= 40:
                             rd = ext.describe(r)
                             for op2, args2, fn2 in opalpha.ops_for(rd, None, "quick", small=True):
@@ -397,7 +414,7 @@ class C11(runner.Check):
                                                      {"part": "b", "layout": layouts.to_json(d), "op": opname, "args": list(args),
                                                       "op2": op2, "args2": list(args2)}, op=op2, msgclass=msgclass(ve2),
                                                      input_top=top_family(rd), has_string=has_string(rd),
-                                                     has_record=has_record(rd), has_empty_record=has_record(rd, True))
+                                                     has_record=has_record(rd), has_empty_record=has_record(rd, True), has_option=has_option(rd))
                     st.outcome(opname + ":ok")
                 if no % 50 == 0:
                     st.sample({"layout": layouts.short(d), "encoding": names})
